@@ -148,6 +148,18 @@ theorem created_timeouts_positive (s s' : State) (n : Nat) :
       | (cases h; exact ⟨_, rfl, by simp only; omega, hobs s.params.callTimeout (by omega)⟩)
       | cases h
 
+/-- `no_batch_before_observation`, over histories: every batch and every outgoing bridge call ever created, along every
+operation list from every initial state (where no external height has been observed yet), carries a positive timeout —
+it was created after the first observation, with a timeout computed from an observed external height -/
+theorem created_after_observation (s0 : State) (h0 : IsInit s0) (ops : List Op) :
+    (∀ b ∈ (runExt s0 {} ops).2.created, 0 < b.timeout) ∧ (∀ c ∈ (runExt s0 {} ops).2.createdCalls, 0 < c.timeout) ∧
+    (∀ b ∈ (run s0 ops).batches, 0 < b.timeout) ∧ (∀ c ∈ (run s0 ops).calls, 0 < c.timeout) := by
+  have ht0 : T {} := ⟨fun b hb => (by cases hb), fun c hc => (by cases hc)⟩
+  have ht := T_run (s := s0) ht0 ops
+  have hn := N_run (N_init h0) ops
+  rw [runExt_fst] at hn
+  exact ⟨ht.batches, ht.calls, fun b hb => ht.batches b (hn.sub b hb), fun c hc => ht.calls c (hn.csub c hc)⟩
+
 /-- `refund_excludes_execution`, batches.  A batch cancelled for time-out at the observation of an event at external
 height `h` (`timeout < h`, the generated Go rule) cannot be submitted at any block `h' ≥ h`: the contract's generated rule
 `require(block.number < _batchTimeout)` fails there -/
